@@ -93,7 +93,7 @@ func encodeDouble(value float64) ([]byte, error) {
 		if iv >= _doubleTwoByteMin && iv <= _doubleTwoByteMax {
 			return []byte{_doubleTwoByteTag, byte(iv >> 8), byte(iv)}, nil
 		}
-		return nil, newCodecError("encodeDouble", "unsupported double range: %v", iv)
+		// other integral values use the 4 or 8 octet forms below
 	}
 
 	f32 := float32(value)
